@@ -24,6 +24,28 @@ Theorem C18_range_window : forall (A : Type) (b : list A) (off lim : Z),
 Proof. exact @get_range_window. Qed.
 Print Assumptions C18_range_window.
 
+(* End to end, over histories: after ANY operation sequence (writes, trims, observers coming and going)
+   the answer to a range request is a contiguous block of everything written so far, ending
+   clamp(offset) - len lines before the last written line. *)
+Theorem C18_range_of_history : forall (A : Type) (size : nat) (ops : list (op A)) (off lim : Z),
+  let s := run (init size) ops in
+  let r := get_range (buf s) off lim in
+  exists pre post, written ops = pre ++ r ++ post /\
+    Z.of_nat (length post) = (clamp_off (buf s) off - window_len (buf s) off lim)%Z /\
+    Z.of_nat (length r) = window_len (buf s) off lim.
+Proof. exact @range_of_history. Qed.
+Print Assumptions C18_range_of_history.
+
+(* "at least the configured length once that many were written": a request reaching back no further than
+   min(#written, size) lines is never clamped, whatever was trimmed before. *)
+Theorem C18_range_served_in_full : forall (A : Type) (size : nat) (ops : list (op A)) (off lim : Z),
+  (0 <= off <= Z.of_nat (Nat.min (length (written ops)) size))%Z ->
+  let s := run (init size) ops in
+  clamp_off (buf s) off = off /\
+  Z.of_nat (length (get_range (buf s) off lim)) = (if (lim <? 1)%Z then off else Z.min lim off).
+Proof. exact @range_served_in_full. Qed.
+Print Assumptions C18_range_served_in_full.
+
 (* "A follower that subscribes with a tail length and keeps reading receives that tail and then every
    subsequently written line exactly once and in order": at any reachable state, for any later
    operations (writes, range reads, other observers coming and going). *)
